@@ -410,48 +410,73 @@ fn compute_candidate_from_operation<'vertex, Vertex: Debug + Clone + 'vertex>(
         }
         Operation::LessThan(_, _) => {
             compute_candidate_from_tagged_value!(iterator, initial_candidate, candidate, value, {
-                candidate.intersect(CandidateValue::Range(Range::with_end(
-                    Bound::Excluded(value),
-                    true, // nullability is handled in the initial_candidate
-                )));
+                if matches!(value, FieldValue::Null) {
+                    // A comparison against a null value never holds: no value can satisfy the filter.
+                    candidate = CandidateValue::Impossible;
+                } else {
+                    candidate.intersect(CandidateValue::Range(Range::with_end(
+                        Bound::Excluded(value),
+                        true, // nullability is handled in the initial_candidate
+                    )));
+                }
             })
         }
         Operation::LessThanOrEqual(_, _) => {
             compute_candidate_from_tagged_value!(iterator, initial_candidate, candidate, value, {
-                candidate.intersect(CandidateValue::Range(Range::with_end(
-                    Bound::Included(value),
-                    true, // nullability is handled in the initial_candidate
-                )));
+                if matches!(value, FieldValue::Null) {
+                    // A comparison against a null value never holds: no value can satisfy the filter.
+                    candidate = CandidateValue::Impossible;
+                } else {
+                    candidate.intersect(CandidateValue::Range(Range::with_end(
+                        Bound::Included(value),
+                        true, // nullability is handled in the initial_candidate
+                    )));
+                }
             })
         }
         Operation::GreaterThan(_, _) => {
             compute_candidate_from_tagged_value!(iterator, initial_candidate, candidate, value, {
-                candidate.intersect(CandidateValue::Range(Range::with_start(
-                    Bound::Excluded(value),
-                    true, // nullability is handled in the initial_candidate
-                )));
+                if matches!(value, FieldValue::Null) {
+                    // A comparison against a null value never holds: no value can satisfy the filter.
+                    candidate = CandidateValue::Impossible;
+                } else {
+                    candidate.intersect(CandidateValue::Range(Range::with_start(
+                        Bound::Excluded(value),
+                        true, // nullability is handled in the initial_candidate
+                    )));
+                }
             })
         }
         Operation::GreaterThanOrEqual(_, _) => {
             compute_candidate_from_tagged_value!(iterator, initial_candidate, candidate, value, {
-                candidate.intersect(CandidateValue::Range(Range::with_end(
-                    Bound::Included(value),
-                    true, // nullability is handled in the initial_candidate
-                )));
+                if matches!(value, FieldValue::Null) {
+                    // A comparison against a null value never holds: no value can satisfy the filter.
+                    candidate = CandidateValue::Impossible;
+                } else {
+                    candidate.intersect(CandidateValue::Range(Range::with_end(
+                        Bound::Included(value),
+                        true, // nullability is handled in the initial_candidate
+                    )));
+                }
             })
         }
         Operation::OneOf(_, _) => {
             compute_candidate_from_tagged_value!(iterator, initial_candidate, candidate, value, {
-                let values = value
-                    .as_slice()
-                    .unwrap_or_else(|| {
-                        panic!(
-                            "\
+                if matches!(value, FieldValue::Null) {
+                    // `one_of` against a null value never holds: no value can satisfy the filter.
+                    candidate = CandidateValue::Impossible;
+                } else {
+                    let values = value
+                        .as_slice()
+                        .unwrap_or_else(|| {
+                            panic!(
+                                "\
 field {field_name} of type {field_type} produced an invalid value when resolving @tag: {value:?}",
-                        )
-                    })
-                    .to_vec();
-                candidate.intersect(CandidateValue::Multiple(values));
+                            )
+                        })
+                        .to_vec();
+                    candidate.intersect(CandidateValue::Multiple(values));
+                }
             })
         }
         _ => unreachable!("unsupported 'operation': {:?}", operation,),
